@@ -52,6 +52,9 @@ def run(prog, res):
   C17._w7_structure(prog, res)
   C17._w7_flatten(prog, res)
   C17._w7_keys(prog, res)
+  from . import C15
+  C15._missing_before_cyclic(prog, res)
+  res.floor('W4', 1)
   res.floor('Y1', 7)
   res.floor('Y2', 3)
   res.floor('Y3', 5)
